@@ -12,6 +12,11 @@ if [ -n "$need" ]; then
   mkdir -p .deps
   /venv/bin/pip install --quiet --no-index --find-links /opt/veriftools/wheels --target .deps $need
 fi
+# atheris (coverage-guided stage of C05 / C16) is optional: without it that stage is skipped and says so in the evidence
+if ! PYTHONPATH="$PWD/.deps" /venv/bin/python -c "import atheris" 2>/dev/null; then
+  mkdir -p .deps
+  /venv/bin/pip install --quiet --no-index --find-links /opt/veriftools/wheels --target .deps atheris 2>/dev/null || echo "setup: atheris not installable, coverage-guided stage will be skipped"
+fi
 PYTHONPATH="$PWD/.deps" /venv/bin/python -B - <<'PY'
 import sys
 sys.path.insert(0, ".")
